@@ -8,7 +8,9 @@ Delivered.  Binding (V): the real Receiver with its real goroutines is driven by
 actions (publish good/corrupt, remove, list ok/fail, release a gated Load ok/fail, Next, Close); after every action
 the goroutines run until blocked and the observable state (waiting snapshots, Load calls parked at the gate, tokens
 held) is recorded; TLC validates every recorded trace against ReceiverTrace.tla (unlogged downloader steps are
-silent actions).  Run-once termination and liveness with corrupt blobs are checked on free-running receivers.
+silent actions).  Run-once termination and liveness with corrupt blobs are checked on free-running receivers;
+run-once is also part of LSLoop.tla (constant OnlyOnce, action Exit, invariant ExitOnlyWhenDone) and its behaviours
+are replayed through the real loop (the loop must return exactly where the specification says, not earlier).
 """
 import json, os
 import vlib
@@ -80,6 +82,9 @@ def run(c):
     vlib.absorb(c, res)
     res = vlib.run_harness(['onlyonce'], timeout=900)
     vlib.absorb(c, res)
+    # run-once at loop level: LSLoop with only_once - the loop returns exactly when nothing is left to wait for
+    import loopx
+    loopx.run_extra(c, 'C16', 'once')
     c.assumptions += ['the recorded state is observed after the goroutines settled (stable for 30 ms; after a rejection everything is recorded again with a 150 ms window and only a rejection there is reported); a state that does not settle is inconclusive',
                       'transient failures: bounded number of faults in the liveness model']
     c.extra['rule'] = 'seeded random external actions on the real Receiver; each trace = 60-80 events, validated by TLC'
